@@ -2024,3 +2024,79 @@ func caseTwinFieldsFamily() []*Program {
 	}
 	return out
 }
+
+// bindSpellingCounterpartsFamily: T and *T both provided, both implementing I (value receiver); the
+// binding designates ONE of them, however its arguments are spelled (new(T), (*T)(nil), typed nil
+// for both): the consumer of I receives that one, the consumer of the other form the other (C02, C11).
+func bindSpellingCounterpartsFamily() []*Program {
+	var out []*Program
+	n := 0
+	for _, sp := range []string{"", "typed-nil-second", "typed-nil-both"} {
+		for _, toPtr := range []bool{false, true} {
+			n++
+			b := NewPB(fmt.Sprintf("bsc%02d", n), "app")
+			conf, app := b.Carrier(0, "Conf"), b.Carrier(0, "App")
+			ifc := b.Iface(0, "Logger", conf, false)
+			nv := b.Func(0, "ProvideConf", conf, false, false)
+			np := b.Func(0, "ProvideConfPtr", PtrTo(conf), false, false)
+			target := conf
+			if toPtr {
+				target = PtrTo(conf)
+			}
+			bd := b.Bind(ifc, target)
+			bd.Spelling = sp
+			na := b.Func(0, "NewApp", app, false, false, ifc, PtrTo(conf), conf)
+			set := b.Set(0, "ConfSet", ItemRef(nv.ID), ItemRef(np.ID), ItemRef(bd.ID))
+			b.Inj("Init", app, false, false, nil, SetRef(set.ID), ItemRef(na.ID))
+			cell := fmt.Sprintf("binding-with-both-forms-provided/spelling=%s/to-pointer=%v", sp, toPtr)
+			b.P.Note = cell
+			b.P.Feat = map[string]string{"cell": cell}
+			out = append(out, b.P)
+		}
+	}
+	return out
+}
+
+// multiNameSetSpecFamily: two provider sets declared in ONE var spec (var A, B = wire.NewSet(..),
+// wire.NewSet(..)): each name means its own initialiser, whichever comes first and whichever the
+// injector lists first (C02, C06, C10).
+func multiNameSetSpecFamily() []*Program {
+	var out []*Program
+	n := 0
+	for _, firstIsDep := range []bool{true, false} {
+		for _, buildOrder := range []int{0, 1} {
+			for _, nested := range []bool{false, true} {
+				n++
+				b := NewPB(fmt.Sprintf("mns%02d", n), "app", "liba")
+				cfg, store, top := b.Carrier(1, "Config"), b.Carrier(1, "Store"), b.Carrier(0, "Top")
+				nc := b.Func(1, "NewConfig", cfg, false, false)
+				ns := b.Func(1, "NewStore", PtrTo(store), true, true, cfg)
+				nt := b.Func(0, "NewTop", top, false, false, PtrTo(store), cfg)
+				cs := b.Set(1, "ConfigSet", ItemRef(nc.ID))
+				ss := b.Set(1, "StoreSet", ItemRef(ns.ID))
+				if firstIsDep {
+					cs.JoinWith, ss.Joined = ss.ID+1, true
+				} else {
+					// StoreSet is declared first in the spec: it must come first in p.Sets as well
+					b.P.Sets[cs.ID], b.P.Sets[ss.ID] = ss, cs
+					cs.ID, ss.ID = ss.ID, cs.ID
+					ss.JoinWith, cs.Joined = cs.ID+1, true
+				}
+				refsB := []Ref{SetRef(cs.ID), SetRef(ss.ID)}
+				if buildOrder == 1 {
+					refsB[0], refsB[1] = refsB[1], refsB[0]
+				}
+				if nested {
+					all := b.Set(1, "All", refsB...)
+					refsB = []Ref{SetRef(all.ID)}
+				}
+				b.Inj("Init", top, true, true, nil, append(refsB, ItemRef(nt.ID))...)
+				cell := fmt.Sprintf("two-sets-in-one-var-spec/dependency-first=%v/build-order=%d/nested=%v", firstIsDep, buildOrder, nested)
+				b.P.Note = cell
+				b.P.Feat = map[string]string{"cell": cell}
+				out = append(out, b.P)
+			}
+		}
+	}
+	return out
+}
